@@ -47,6 +47,9 @@ PROBLEMS = {
     "fixnls":  dict(n=2, x0=[0.5, 7.0], bounds=[[0.0, 2.0], [1.0, 1.0]], nl=[(1, [-INF], [0.0], "nlc")], scale=True),
     "boxnls":  dict(n=1, x0=[0.5], bounds=[[0.0, 4.0]], nl=[(1, [-INF], [0.0], "nlc")], scale=True),
     "infeascb": dict(n=1, x0=[0.5], bounds=[[1.0, 0.0]]),
+    "nanbox":  dict(n=2, x0=[0.5, 0.25], bounds=[[math.nan, 2.0], [0.0, math.nan]]),
+    "nanboxarr": dict(n=2, x0=[0.5, 0.25], bounds=[[math.nan, 2.0], [0.0, math.nan]], bounds_form="array",
+                      lin=[([[1.0, 1.0]], [-INF], [3.0])]),
     "allfixlin": dict(n=2, x0=[0.0, 0.0], bounds=[[1.0, 1.0], [2.0, 2.0]], lin=[([[1.0, 1.0]], [-INF], [2.0])]),
     "fixlin":  dict(n=2, x0=[0.5, 7.0], bounds=[[0.0, 2.0], [1.0, 1.0]], lin=[([[1.0, 1.0]], [-INF], [1.25])]),
     "feaslin2": dict(n=1, x0=[0.5], bounds=None, lin=[([[1.0]], [1.7], [INF])], fun=False),
@@ -65,6 +68,14 @@ STATUS_MSG = {
     -1: "The bound constraints are infeasible",
     -2: "A linear algebra error occurred",
 }
+
+
+def clean_bounds(b):
+    """the user's bounds with NaN meaning 'no bound' (documented)"""
+    if b is None:
+        return None
+    return [[-INF if (isinstance(r[0], float) and math.isnan(r[0])) else r[0],
+             INF if (isinstance(r[1], float) and math.isnan(r[1])) else r[1]] for r in b]
 
 
 def flt(x):
@@ -174,6 +185,9 @@ class Ctl(Harness):
             add("box2s", 3, 1, cb="obj-kw", npt=3, scribble=True)
             add("fixed1", 3, 1, cb="partial-pos")
             add("linub", 3, 1, cb="partial-kw")
+            add("nlub", 4, 1, npt=2, force="soc", con_const=1.0)
+            add("nanbox", 3, 1, npt=3)
+            add("nanboxarr", 3, 1, npt=3, cb="pos")
             add("unc1", 3, 1, repeat=True)
             add("box1", 3, 1, cb="pos", repeat=True)
             add("nlub", 2, 1, npt=2, repeat=True)
@@ -205,8 +219,10 @@ class Ctl(Harness):
                 return P.get("bounds") is not None
             if d.get("repeat") or d.get("nested"):
                 return prop == "C11"
+            if d.get("force"):
+                return prop in ("C12", "C01", "C18", "C05", "C09")
             if prop in ("C11", "C18", "C12"):
-                return d["pb"] in ("unc1", "box1", "lineq", "box2s", "linub", "fixed1") or \
+                return d["pb"] in ("unc1", "box1", "lineq", "box2s", "linub", "fixed1", "nanbox", "nanboxarr") or \
                     (d["pb"] in ("nlub", "feas") and d["kinds"] == "fin") or (d["pb"] == "boxnls" and prop != "C11")
             return True
         return [d for d in S if keep(d)]
@@ -272,6 +288,8 @@ class Ctl(Harness):
             xu = [flt(v) for v in xu]
             d = flt(delta)
             fracs = fracs[:max(1, st["menu"])]
+            if st.get("force"):
+                fracs = [st["force"].pop(0)] if st["force"] else fracs[:1]
             k = eng().choose(len(fracs), "step")
             fr = fracs[k]
             s = []
@@ -361,7 +379,10 @@ class Ctl(Harness):
     def _call(self, ctx, shape, inner=False):
         M, np = ctx.M, ctx.np
         e = ctx.tape or ctx.e
-        ctx.st.update(faults=shape.get("faults", 0), ill=shape.get("ill", 0), menu=shape.get("menu", 2))
+        ctx.st.update(faults=shape.get("faults", 0), ill=shape.get("ill", 0), menu=shape.get("menu", 2), force=None)
+        if shape.get("force") == "soc":
+            # normal step = full, tangential = zero, then the correction = full: the SOC branch is reachable
+            ctx.st["force"] = [(1.0, 0.0), (0.0, 0.0), (1.0, 0.0), (0.5, 0.0), (-0.5, 0.25)]
         P = PROBLEMS[shape["pb"]]
         n = P["n"]
         allk = shape["kinds"] != "fin"
@@ -396,7 +417,10 @@ class Ctl(Harness):
 
         def mkcon(j, m, form):
             def con(x, *args):
-                vals = [val(f"c{j}") for _ in range(m)]
+                if shape.get("con_const") is not None:
+                    vals = [float(shape["con_const"]) if not ctx.sym else lift(float(shape["con_const"])) for _ in range(m)]
+                else:
+                    vals = [val(f"c{j}") for _ in range(m)]
                 log.append(dict(t="con", j=j, x=pt(x), v=vals, depth=cur["depth"]))
                 if m == 1 and form != "nlc":
                     return vals[0]
@@ -447,18 +471,30 @@ class Ctl(Harness):
 
         # problem statement in the user's terms ------------------------------
         bounds = None
+        keep = {}
         if P.get("bounds") is not None:
             b = P["bounds"]
-            bounds = M.Bounds(ctx.arr([r[0] for r in b]), ctx.arr([r[1] for r in b]))
+            if P.get("bounds_form") == "array":
+                bounds = ctx.arr([[r[0], r[1]] for r in b])
+                keep["bounds"] = (bounds, [[r[0], r[1]] for r in b])
+            else:
+                lbv, ubv = ctx.arr([r[0] for r in b]), ctx.arr([r[1] for r in b])
+                bounds = M.Bounds(lbv, ubv)
+                keep["bounds_lb"] = (lbv, [r[0] for r in b])
+                keep["bounds_ub"] = (ubv, [r[1] for r in b])
         cons = []
-        for (A, lb, ub) in P.get("lin", []):
-            cons.append(M.LinearConstraint(ctx.arr(A), ctx.arr(lb), ctx.arr(ub)))
+        for q, (A, lb, ub) in enumerate(P.get("lin", [])):
+            Aa, la, ua = ctx.arr(A), ctx.arr(lb), ctx.arr(ub)
+            cons.append(M.LinearConstraint(Aa, la, ua))
+            keep[f"lin{q}_A"] = (Aa, A)
+            keep[f"lin{q}_lb"] = (la, lb)
+            keep[f"lin{q}_ub"] = (ua, ub)
         for j, (m, lb, ub, form) in enumerate(P.get("nl", [])):
             if form == "nlc":
                 cons.append(M.NonlinearConstraint(mkcon(j, m, form), ctx.arr(lb), ctx.arr(ub)))
             else:
                 cons.append({"type": "ineq" if form == "dict-ineq" else "eq", "fun": mkcon(j, m, form)})
-        bb = P.get("bounds")
+        bb = clean_bounds(P.get("bounds"))
         n_free = n if bb is None else sum(1 for r in bb if r[0] != r[1])
         npt = shape["npt"] or 2 * max(n_free, 0) + 1
         options = dict(maxfev=shape["maxfev"], maxiter=shape["maxiter"], nb_points=npt,
@@ -508,6 +544,16 @@ class Ctl(Harness):
             return orig_step(self_, options_)
 
         M.patch(TR, "get_trust_region_step", step_wrapper)
+        orig_soc = TR.get_second_order_correction_step
+
+        def soc_wrapper(self_, step_, options_):
+            r = orig_soc(self_, step_, options_)
+            if any(flt(v) != 0.0 for v in r):
+                flags["soc"] = True
+            return r
+
+        flags = {}
+        M.patch(TR, "get_second_order_correction_step", soc_wrapper)
         orig_enh = TR.enhance_resolution
 
         def enh_wrapper(self_, options_):
@@ -548,7 +594,7 @@ class Ctl(Harness):
 
         # the call -----------------------------------------------------------
         out = dict(shape=shape, log=log, monitors=monitors, final=final, frame=frame, tol=tol, target=target,
-                   cbstate=cbstate, saved=saved, options=options, x0=x0)
+                   cbstate=cbstate, saved=saved, options=options, x0=x0, keep=keep)
         try:
             res = M.main.minimize(fun if P.get("fun", True) else None, x0, bounds=bounds, constraints=cons,
                                   callback=callback, options=options)
@@ -565,8 +611,10 @@ class Ctl(Harness):
         finally:
             for obj, nm, orig in ((Pb, "__call__", orig_call), (TR, "get_trust_region_step", orig_step),
                                   (TR, "enhance_resolution", orig_enh), (M.main, "_build_result", orig_build),
-                                  (TR, "__init__", orig_tr_init), (MDL, "update_interpolation", orig_upd)):
+                                  (TR, "__init__", orig_tr_init), (MDL, "update_interpolation", orig_upd),
+                                  (TR, "get_second_order_correction_step", orig_soc)):
                 setattr(obj, nm, orig)
+        out["soc_taken"] = bool(flags.get("soc"))
         if frame.get("tr") is not None:
             tr = frame["tr"]
             try:
@@ -604,7 +652,7 @@ class Ctl(Harness):
     def user_point(self, P, x_int):
         """Expected user-space point of an internal point (harness' own formula)."""
         n = P["n"]
-        b = P.get("bounds")
+        b = clean_bounds(P.get("bounds"))
         lbs = [(-INF if b is None else b[i][0]) for i in range(n)]
         ubs = [(INF if b is None else b[i][1]) for i in range(n)]
         feasible = all(l <= u for l, u in zip(lbs, ubs))
@@ -631,7 +679,7 @@ class Ctl(Harness):
     def true_violation(self, P, x_user, con_vals):
         """max(0, every excess) at x_user from the user's own statement.  con_vals[j] = logged values."""
         ex = [0.0]
-        b = P.get("bounds")
+        b = clean_bounds(P.get("bounds"))
         if b is not None:
             for i in range(P["n"]):
                 ex += interval_excess(x_user[i], float(b[i][0]), float(b[i][1]))
@@ -662,7 +710,7 @@ class Ctl(Harness):
         evs, outside = self.evaluations(shape, o)
         N = len(evs)
         res = o.get("res")
-        b = P.get("bounds")
+        b = clean_bounds(P.get("bounds"))
         feasible_bounds = b is None or all(r[0] <= r[1] for r in b)
         all_fixed = b is not None and feasible_bounds and all(r[0] == r[1] for r in b)
 
@@ -681,6 +729,8 @@ class Ctl(Harness):
             self._judge_calls(C, P, evs, outside, has_fun, nl)
             return claims, goals
         goals.append(f"status_{res.status}")
+        if o.get("soc_taken"):
+            goals.append("second_order_correction")
 
         # ---- ground truth per evaluation -----------------------------------
         fvals, vvals, xus = [], [], []
@@ -866,6 +916,18 @@ class Ctl(Harness):
                         same_value(r2.fun, res.fun), same_value(r2.maxcv, res.maxcv),
                         r2.message == res.message))
         # ---- C11 arguments untouched ------------------------------------------------------
+        def same_nested(arr, ref):
+            got = _np.asarray(arr, dtype=object).tolist()
+
+            def eq(a, c):
+                if isinstance(a, list):
+                    return isinstance(c, list) and len(a) == len(c) and all(eq(u, v) for u, v in zip(a, c))
+                a, c = flt(a), float(c)
+                return (math.isnan(a) and math.isnan(c)) or a == c
+            return eq(got, ref)
+
+        for nm, (arr, ref) in o.get("keep", {}).items():
+            C("C11", "argument_arrays_untouched", same_nested(arr, ref), s=f"{sig}:{nm}")
         C("C11", "x0_untouched", pt(o["x0"]) == o["saved"]["x0"])
         C("C11", "options_dict_untouched",
           set(o["options"]) == set(o["saved"]["options"]) and
@@ -911,7 +973,7 @@ class Ctl(Harness):
         if prop == "C11":
             g += ["repeated_call", "nested_call"]
         if prop == "C12":
-            g += ["interpolation_update"]
+            g += ["interpolation_update", "second_order_correction"]
         return g
 
     def digest(self, ctx, shape, o):
